@@ -435,6 +435,61 @@ func tStride(P *Prover, loops map[*ssa.BasicBlock]map[*ssa.BasicBlock]bool, idx 
 	return nil, nil, false
 }
 
+// tRows: the indexed slice is the window rest[:J] of a slice `rest` that starts as a whole
+// packed-triangle array and is advanced by rest = rest[J:] once per trip of a loop whose unit
+// counter J starts at 0 or 1. Then rest always begins at cell J(J-1)/2, the window is row J, and
+// any index that is in range for the window is a column I < J of that row.
+func tRows(P *Prover, loops map[*ssa.BasicBlock]map[*ssa.BasicBlock]bool, base ssa.Value) (Poly, bool) {
+	win, ok := stripAll(base).(*ssa.Slice)
+	if !ok || win.Low != nil || win.High == nil || win.Max != nil {
+		return nil, false
+	}
+	rest, ok := win.X.(*ssa.Phi)
+	if !ok {
+		return nil, false
+	}
+	body := loops[rest.Block()]
+	if body == nil {
+		return nil, false
+	}
+	J := P.poly(win.High)
+	jphi, isPhi := strip(win.High).(*ssa.Phi)
+	if !isPhi || jphi.Block() != rest.Block() {
+		return nil, false
+	}
+	if _, ok := unitCounter(P, loops, jphi); !ok {
+		return nil, false
+	}
+	j0, ok := initOf(jphi, body)
+	if !ok {
+		return nil, false
+	}
+	if k, isK := constInt(j0); !isK || (k != 0 && k != 1) {
+		return nil, false
+	}
+	for e, pred := range rest.Block().Preds {
+		v := rest.Edges[e]
+		if body[pred] {
+			adv, ok := v.(*ssa.Slice)
+			if !ok || adv.X != ssa.Value(rest) || adv.Low == nil || adv.High != nil || adv.Max != nil || P.poly(adv.Low).add(J, -1).key() != "" {
+				return nil, false
+			}
+		} else {
+			// the whole array: an allocation, or a full reslice of one
+			w := stripAll(v)
+			if sl, ok := w.(*ssa.Slice); ok && sl.Low == nil && sl.High == nil {
+				w = stripAll(sl.X)
+			}
+			switch w.(type) {
+			case *ssa.MakeSlice, *ssa.Alloc:
+			default:
+				return nil, false
+			}
+		}
+	}
+	return J, true
+}
+
 // tSweep: idx is exactly a unit-step loop counter, and the access executes on every iteration.
 func tSweep(P *Prover, loops map[*ssa.BasicBlock]map[*ssa.BasicBlock]bool, idx ssa.Value, at *ssa.BasicBlock) (string, bool) {
 	v := strip(idx)
@@ -576,6 +631,11 @@ func ruleTriX(c *Ctx, files func(string) bool, rule string, exactCell bool) *Rul
 				}
 				if why, ok := tSweep(P, loops, ia.Index, b); ok {
 					r.inst("%s: %s  T-sweep: %s", name, src, why)
+					r.oblig(true)
+					continue
+				}
+				if jp, ok := tRows(P, loops, ia.X); ok {
+					r.inst("%s: %s  T-rows: window of row %s, column %s (in range for the window, hence < row)", name, src, P.showTerm(jp), P.showTerm(idx))
 					r.oblig(true)
 					continue
 				}
@@ -761,7 +821,7 @@ func ruleEdgeByte(c *Ctx, pkgRel string) *RuleResult {
 // and the column I of the cell. Indices are compared as expressions over the same values (byte
 // arithmetic read as integer arithmetic on both sides).
 func ruleDegSync(c *Ctx, files func(string) bool) *RuleResult {
-	r := &RuleResult{Rule: "DEGSYNC", Doc: "an edge recorded at cell (I,J) of the packed triangle is counted into the degree sequence of the returned graph at exactly the entries I and J", MinInst: 3}
+	r := &RuleResult{Rule: "DEGSYNC", Doc: "an edge recorded at cell (I,J) of the packed triangle is counted into the degree sequence of the returned graph at exactly the entries I and J", MinInst: 1}
 	gp := c.ByPath[c.Mod+"/graph"]
 	if gp == nil {
 		failf("package graph not loaded")
@@ -792,12 +852,46 @@ func ruleDegSync(c *Ctx, files func(string) bool) *RuleResult {
 				deg[stripAll(st.Val)] = true
 			}
 		}
+		// ... or are read back from that field of a graph built or held here (g.DegreeSequence[v]++)
+		for _, b := range fn.Blocks {
+			for _, in := range b.Instrs {
+				ld, ok := in.(*ssa.UnOp)
+				if !ok || ld.Op != token.MUL {
+					continue
+				}
+				fa, ok := ld.X.(*ssa.FieldAddr)
+				if !ok {
+					continue
+				}
+				if _, isLit := fa.X.(*ssa.Alloc); !isLit {
+					continue // an existing graph being edited: COUPLE judges the edit methods
+				}
+				if stt, ok := fa.X.Type().Underlying().(*types.Pointer).Elem().Underlying().(*types.Struct); ok && stt.Field(fa.Field).Name() == "DegreeSequence" {
+					deg[ld] = true
+				}
+			}
+		}
 		if len(deg) == 0 {
 			continue
 		}
 		var P *Prover
 		var loops map[*ssa.BasicBlock]map[*ssa.BasicBlock]bool
 		name := c.short(fn)
+		sameSlice := func(a, b ssa.Value) bool {
+			a, b = stripAll(a), stripAll(b)
+			if a == b {
+				return true
+			}
+			// two loads of the same field of the same graph
+			la, ok1 := a.(*ssa.UnOp)
+			lb, ok2 := b.(*ssa.UnOp)
+			if ok1 && ok2 {
+				fa, ok3 := la.X.(*ssa.FieldAddr)
+				fb, ok4 := lb.X.(*ssa.FieldAddr)
+				return ok3 && ok4 && fa.Field == fb.Field && fa.X == fb.X
+			}
+			return false
+		}
 		for _, b := range fn.Blocks {
 			type inc struct {
 				idx ssa.Value
@@ -824,7 +918,7 @@ func ruleDegSync(c *Ctx, files func(string) bool) *RuleResult {
 				if !ok || ld.Op != token.MUL {
 					continue
 				}
-				if la, ok := ld.X.(*ssa.IndexAddr); !ok || stripAll(la.X) != stripAll(ia.X) {
+				if la, ok := ld.X.(*ssa.IndexAddr); !ok || !sameSlice(la.X, ia.X) {
 					continue
 				}
 				incs = append(incs, inc{ia.Index, in})
@@ -838,7 +932,7 @@ func ruleDegSync(c *Ctx, files func(string) bool) *RuleResult {
 			}
 			// the edge event of this block: a non-zero store into a byte slice here, or the test of a
 			// byte of a byte slice against zero on the edge into this block
-			var cell ssa.Value
+			var cell, cellBase ssa.Value
 			what := ""
 			for _, in := range b.Instrs {
 				st, ok := in.(*ssa.Store)
@@ -850,7 +944,7 @@ func ruleDegSync(c *Ctx, files func(string) bool) *RuleResult {
 				}
 				if ia, ok := st.Addr.(*ssa.IndexAddr); ok {
 					if _, isSl := ia.X.Type().Underlying().(*types.Slice); isSl {
-						cell, what = ia.Index, "stores"
+						cell, cellBase, what = ia.Index, ia.X, "stores"
 					}
 				}
 			}
@@ -862,7 +956,7 @@ func ruleDegSync(c *Ctx, files func(string) bool) *RuleResult {
 						if z, isK := constInt(bo.Y); isK && z == 0 && ((onTrue && (bo.Op == token.GTR || bo.Op == token.NEQ)) || (!onTrue && bo.Op == token.EQL)) {
 							if ld, ok := bo.X.(*ssa.UnOp); ok && ld.Op == token.MUL && isByte(ld.Type()) {
 								if ia, ok := ld.X.(*ssa.IndexAddr); ok {
-									cell, what = ia.Index, "finds"
+									cell, cellBase, what = ia.Index, ia.X, "finds"
 								}
 							}
 						}
@@ -884,6 +978,11 @@ func ruleDegSync(c *Ctx, files func(string) bool) *RuleResult {
 							J, I, ok = P.poly(jp), P.poly(ip), true
 						}
 					}
+				}
+			}
+			if !ok && cellBase != nil {
+				if jp, ok2 := tRows(P, loops, cellBase); ok2 {
+					J, I, ok = jp, P.poly(cell), true
 				}
 			}
 			if !ok {
@@ -1009,6 +1108,10 @@ func ruleCounts(c *Ctx, files func(string) bool) *RuleResult {
 				}
 				if ctl, _ := P.locallyControlled(v); !ctl {
 					r.note("%s: %s = %s depends on data: not judged", name, src, P.showTerm(v))
+					continue
+				}
+				if over := overwrittenLater(P, fn, st, ia, v); over != "" {
+					r.note("%s: %s = %s may be overwritten afterwards by %s: the value that stays is judged there", name, src, P.showTerm(v), over)
 					continue
 				}
 				n := P.lenOf(stripAll(ia.X))
@@ -1176,4 +1279,50 @@ func ruleIrreflexive(c *Ctx, pkgRel string) *RuleResult {
 		}
 	}
 	return r
+}
+
+// overwrittenLater: some store into the same slice that can execute after st writes a different
+// value into a cell that is not provably another one. Returns a description of that store.
+func overwrittenLater(P *Prover, fn *ssa.Function, st *ssa.Store, ia *ssa.IndexAddr, v Poly) string {
+	where := map[ssa.Instruction]ipos{}
+	for _, b := range fn.Blocks {
+		for i, in := range b.Instrs {
+			where[in] = ipos{b, i}
+		}
+	}
+	e := P.poly(ia.Index)
+	for _, b := range fn.Blocks {
+		for _, in := range b.Instrs {
+			t, ok := in.(*ssa.Store)
+			if !ok || t == st {
+				continue
+			}
+			ta, ok := t.Addr.(*ssa.IndexAddr)
+			if !ok || stripAll(ta.X) != stripAll(ia.X) {
+				continue
+			}
+			if !reaches(where[st], where[t], ipos{nil, -1}) {
+				continue
+			}
+			if P.poly(t.Val).add(v, -1).key() == "" {
+				continue // the same value: overwriting changes nothing
+			}
+			// the two indices are compared where both denote the values in question: at st when the later
+			// index does not vary with st's loops, at t when st's own index is loop-free
+			eT := P.poly(ta.Index)
+			d := eT.add(e, -1)
+			var at *ssa.BasicBlock
+			switch {
+			case len(P.phisIn(eT)) == 0 && P.availableBefore(eT, st.Block()):
+				at = st.Block()
+			case len(P.phisIn(e)) == 0 && P.availableBefore(e, b):
+				at = b
+			}
+			if at != nil && (P.Prove(d.scale(-1).add(constP(1), 1), at) || P.Prove(d.add(constP(1), 1), at)) {
+				continue // provably a different cell
+			}
+			return P.c.instrPos(t)
+		}
+	}
+	return ""
 }
